@@ -1,6 +1,7 @@
 CONSTANTS
-  MaxBlocks = 4
-  MaxBlocksAll = 3
+  MaxBlocks = 3
+  MaxBlocksAll = 2
+  ExtraKinds <- LongKinds
   BigCounts <- BigThorough
 SPECIFICATION Spec
 INVARIANTS MachineOK FormOK EncodingsOK GenExact EmitCase
